@@ -97,7 +97,11 @@ func resolveTF(root any, path string, st *Stats) (any, tfOutcome) {
 	for _, s := range segs {
 		if s.sigil == '#' {
 			if _, canon := canonicalIndex(s.text); !canon {
-				if _, err := strconv.ParseInt(s.text, 0, 64); err == nil {
+				// spellings outside canonical decimal that SOME reasonable integer parser accepts (base 0:
+				// 0x1, 0b1, 017, 1_0, +1; base 10: 0158, +1, -0): neither outcome is prescribed
+				_, err0 := strconv.ParseInt(s.text, 0, 64)
+				_, err10 := strconv.ParseInt(s.text, 10, 64)
+				if err0 == nil || err10 == nil {
 					return nil, tfAmbiguous
 				}
 			}
@@ -532,6 +536,6 @@ func c10Read(root any, c *C10Case, st *Stats, when string) (tfOutcome, error) {
 
 func init() {
 	Register("C10",
-		"trees with non-empty sigil-free keys (incl. numeric-looking keys, non-ASCII, spaces, keys with or ending in a backslash, keys with leading or trailing white space (next to their trimmed twins), keys made of shell-pattern characters (*, ?, [k]), and in one case of five keys re-encoded to bytes that are not valid UTF-8; with corrupted and arbitrary paths one key in six is the empty key, which no path may reach; long lists of 60-130 elements addressed near the end; chains of up to 70 levels walked with up to 80 segments; drawn construction routes) x paths from three classes: resolvable random walks (optionally in trees that also hold unaddressable distractor keys \"\", \"a.b\", \"#1\"), one-step corruptions of a resolvable path (15 kinds: segment dropped, sigil swapped, index = n, index > n, negative, key misspelt, trailing sigil, leading sigil removed/wrong/doubled, empty segment, non-numeric index, 21-digit index, one more segment past the end, non-canonical index spelling) and arbitrary strings over the path alphabet. Oracle: a resolver in the harness walks the implementation tree with Get/TypeOf/KeyExists/Count one segment at a time; resolvable => GetTF identical/equal and TypeOfTF = its kind; otherwise TypeOfTF = Undefined without panic and GetTF panics; index spellings outside canonical decimal that a base-0 parser accepts are only checked for panic-freedom; tree unchanged (content and identities). Non-trivial = resolved path with >= 2 segments using both sigils, or any corruption class. Distinct = distinct FNV-64a hash of the case JSON.",
+		"trees with non-empty sigil-free keys (incl. numeric-looking keys, non-ASCII, spaces, keys with or ending in a backslash, keys with leading or trailing white space (next to their trimmed twins), keys made of shell-pattern characters (*, ?, [k]), and in one case of five keys re-encoded to bytes that are not valid UTF-8; with corrupted and arbitrary paths one key in six is the empty key, which no path may reach; long lists of 60-130 elements addressed near the end; chains of up to 70 levels walked with up to 80 segments; drawn construction routes) x paths from three classes: resolvable random walks (optionally in trees that also hold unaddressable distractor keys \"\", \"a.b\", \"#1\"), one-step corruptions of a resolvable path (15 kinds: segment dropped, sigil swapped, index = n, index > n, negative, key misspelt, trailing sigil, leading sigil removed/wrong/doubled, empty segment, non-numeric index, 21-digit index, one more segment past the end, non-canonical index spelling) and arbitrary strings over the path alphabet. Oracle: a resolver in the harness walks the implementation tree with Get/TypeOf/KeyExists/Count one segment at a time; resolvable => GetTF identical/equal and TypeOfTF = its kind; otherwise TypeOfTF = Undefined without panic and GetTF panics; index spellings outside canonical decimal that a base-0 or a base-10 integer parser accepts are only checked for panic-freedom; tree unchanged (content and identities). Non-trivial = resolved path with >= 2 segments using both sigils, or any corruption class. Distinct = distinct FNV-64a hash of the case JSON.",
 		GenC10, CheckC10)
 }
